@@ -3,10 +3,11 @@
 From Coq Require Import List NArith.
 From Coq.Strings Require Import Byte.
 From Coq Require Import Extraction ExtrOcamlBasic.
-From GI Require Import Gen.ProxyConsts Proxy.Regex Proxy.Proxy Proxy.XMod.
+From GI Require Import Gen.ProxyConsts Proxy.Regex Proxy.Proxy Proxy.XMod Proxy.ProxyFacts Proxy.ProxyExact.
 Extraction Language OCaml.
 Extraction "extracted/proxy/model.ml" Byte.of_N Byte.to_N
   escape_string unescape_string read_mod_list route archive_name lookup_archive stored listed
   handler respond run run_own run_sched zip_ops no_caches is_pseudo allhex pseudo_version_re_src
   xmod_oracles check_path_x check_elem_x module_check_x semver_is_valid semver_lt_x semver_canonical
-  semver_compare split_path_version re_match pseudo_version_re central_directory.
+  semver_compare split_path_version re_match pseudo_version_re central_directory
+  served_b server_start serve_all.
